@@ -378,9 +378,17 @@ class CFG:
     def succ_nodes(self, node, labels=None):
         return [s for s, l in node.succ if labels is None or l in labels]
 
+    RECORD = None  # thorough tier: list collecting every path query for the enumeration cross-check
+
     def must_pass(self, starts, targets, via, avoid_edges=(), skip_labels=()):
         """True iff every path from any of `starts` to any of `targets` goes through
         a node in `via`.  Returns (ok, witness_path_or_None)."""
+        res = self._must_pass(starts, targets, via, avoid_edges, skip_labels)
+        if CFG.RECORD is not None:
+            CFG.RECORD.append(("must_pass", self, list(starts), list(targets), set(via), set(avoid_edges), tuple(skip_labels), res[0]))
+        return res
+
+    def _must_pass(self, starts, targets, via, avoid_edges=(), skip_labels=()):
         via = set(via)
         r = self.reach([s for s in starts if s not in via], avoid=via,
                        avoid_edges=avoid_edges, skip_labels=skip_labels)
@@ -418,6 +426,12 @@ class CFG:
         """(min,max) total weight of nodes along paths that start at src and end at
         the first arrival at a node of dsts (both inclusive).  max is INF if a
         weighted node lies on a cycle on such a path.  None if no dst is reachable."""
+        res = self._count_range(src, dsts, weight, avoid, avoid_edges)
+        if CFG.RECORD is not None:
+            CFG.RECORD.append(("count_range", self, src, list(dsts), {n: weight(n) for n in self.live}, set(avoid), set(avoid_edges), res))
+        return res
+
+    def _count_range(self, src, dsts, weight, avoid=(), avoid_edges=()):
         avoid = set(avoid)
         avoid_edges = set(avoid_edges)
         dset = set(dsts)
